@@ -496,7 +496,7 @@ fn main() {
         one_cut_limit: env_usize("C09_ONE_CUT_LIMIT", ctx.tier.pick(4200, 8400)),
         big_bytes: env_usize("C09_BIG", ctx.tier.pick(1024, 4096)),
     };
-    let cap = env_usize("C09_CAP_S", ctx.tier.pick(100_000, 300)) as f64;
+    let cap = env_usize("C09_CAP_S", ctx.tier.pick(100_000, 600)) as f64;
 
     let t0 = Instant::now();
     let full = Space::new(gen::atoms_full(), 3);
